@@ -2,6 +2,7 @@
 (* Step V for C10.  The trace is a sequence of scenarios                      *)
 (*   {"e":"reset","w":W}                                                       *)
 (*   {"e":"arrive","id":i,"f":f,"t":ticks,"rx":rx,"out":[rec,..]}   (i = 1..n) *)
+(*   {"e":"multi","arr":[reception,..],"out":[rec,..]}  (one arrival carrying several receptions) *)
 (*   {"e":"burst","arr":[arrival,..],"out":[rec,..]}   (queued burst, see BurstEv) *)
 (*   {"e":"close","out":[rec,..],"panic":bool}                                 *)
 (* or {"e":"reset","w":W} {"e":"file",..} for a run of decode1090 (see FileEv).  *)
@@ -71,6 +72,24 @@ Arrive(ev) ==
           /\ UNCHANGED <<w, ok>>
      ELSE PrintT(<<"REJECT", l, "arrive">>) /\ ok' = FALSE /\ UNCHANGED vars
 
+(* an arrival carrying several receptions: {"e":"multi","arr":[{id,f,t,rx,last},..],"out":[rec,..]} *)
+(* (Dedup!InsertMulti followed by Pop* until Settled)                                          *)
+MultiEv(ev) ==
+  LET rs == [i \in DOMAIN ev.arr |-> [id |-> ev.arr[i].id, f |-> ev.arr[i].f, t |-> ev.arr[i].t,
+                                      rx |-> ev.arr[i].rx, last |-> ev.arr[i].last]]
+      c1 == InsCacheAll(cache, rs, 1)
+      h1 == InsHeap(cache, heap, rs[1], w)
+      t1 == Ms(rs[1].t)
+  IN IF ~(WellFormedMulti(rs, Len(hist)) /\ \A i \in DOMAIN rs : WellFormedArrival([rs[i] EXCEPT !.id = Len(hist) + 1]))
+     THEN PrintT(<<"SELFCHECK", l>>) /\ ok' = FALSE /\ UNCHANGED vars
+     ELSE IF Explains(c1, h1, t1, ev.out)
+     THEN /\ hist' = hist \o rs /\ now' = t1
+          /\ cache' = AfterCache(c1, h1, t1) /\ heap' = AfterHeap(h1, t1)
+          /\ dropped' = dropped \cup DroppedBy(c1, h1, t1)
+          /\ out' = out \o Stamped(ev.out, rs[Len(rs)].id)
+          /\ UNCHANGED <<w, ok>>
+     ELSE PrintT(<<"REJECT", l, "multi">>) /\ ok' = FALSE /\ UNCHANGED vars
+
 CloseEv(ev) ==
   LET o2 == out \o Stamped(ev.out, 0) IN
   /\ IF ev.panic THEN PrintT(<<"REJECT", l, "close">>)
@@ -131,6 +150,7 @@ Next == /\ l <= NRec /\ l' = l + 1
            IF ev.e = "reset" THEN Reset(ev)
            ELSE IF ~ok THEN UNCHANGED <<ok, w, hist, cache, heap, now, out, dropped>>
            ELSE IF ev.e = "arrive" THEN Arrive(ev)
+           ELSE IF ev.e = "multi" THEN MultiEv(ev)
            ELSE IF ev.e = "burst" THEN BurstEv(ev)
            ELSE IF ev.e = "file" THEN FileEv(ev)
            ELSE CloseEv(ev)
